@@ -212,6 +212,29 @@ Theorem C18_scan_stale_observation :
 Proof. exact sc_o8_observation. Qed.
 Print Assumptions C18_scan_stale_observation.
 
+(* ------------------------------------------------------------------ the check's oracles *)
+
+(* The oracle suite that ./check C18 runs on the implementation's transcript of every
+   generated history (cursor, event justification, alternation with and without O1, the
+   convergence scan over windows of any length n) holds of the model's transcript for EVERY
+   history from the initial state: an oracle failure can only come from the implementation. *)
+Theorem C18_oracle_sound : forall ts h s' tr, addr_ok ts -> ll_run ts ll_new h = Ok (s', tr) ->
+  cursor_walk 0 false (map ll_abs tr) = true /\
+  evs_matchb resp_state_eqb (map ll_abs tr) = true /\
+  alt_walk true 0 (map ll_abs tr) = Some (ll_stations s') /\
+  (no_other (map ll_abs tr) = true -> alt_walk false 0 (map ll_abs tr) = Some (ll_stations s')) /\
+  forall n fuel, snd (converge_scan resp_state_eqb false n fuel [] (map ll_abs tr) (O, O)) = O.
+Proof. exact ll_oracle_sound. Qed.
+Print Assumptions C18_oracle_sound.
+
+Theorem C18_oracle_sound_scanner : forall ts h s' tr, addr_ok ts -> sc_run ts sc_new h = Ok (s', tr) ->
+  cursor_walk 0 false (map sc_abs tr) = true /\
+  evs_matchb sc_pay_eqb (map sc_abs tr) = true /\
+  alt_walk false 0 (map sc_abs tr) = Some (sc_stations s') /\
+  forall n fuel, snd (converge_scan sc_pay_eqb true n fuel [] (map sc_abs tr) (O, O)) = O.
+Proof. exact sc_oracle_sound. Qed.
+Print Assumptions C18_oracle_sound_scanner.
+
 (* ------------------------------------------------------------------ non-vacuity *)
 
 (* The hypotheses of C18_history_converges are satisfiable: the population of the crate's own
